@@ -134,6 +134,9 @@ Definition safe_i64 (x : f64) : outcome Z err :=
 Definition wrap_i64 (z : Z) : Z :=
   let r := z mod 2 ^ 64 in if r <? 2 ^ 63 then r else r - 2 ^ 64.
 
+(* [r as f64] for an i64 r: the operand is an i64 by typing (two's complement) *)
+Definition f_of_i64 (z : Z) : f64 := f_of_Z (wrap_i64 z).
+
 (* State::CompareValue on two numbers: partial_cmp().unwrap() *)
 Definition cmp_num (a b : f64) : outcome comparison err :=
   match f_compare a b with
@@ -236,7 +239,7 @@ Variable g : gates.
 Definition gate (op : numop) (x : f64) : outcome f64 err := if g op then check_number x else Ok x.
 
 Definition bitwise2 (f : Z -> Z -> Z) (a b : f64) : outcome f64 err :=
-  do x <- safe_i64 a; do y <- safe_i64 b; Ok (f_of_Z (f x y)).
+  do x <- safe_i64 a; do y <- safe_i64 b; Ok (f_of_i64 (f x y)).
 
 Definition un_libm (op : numop) (f : f64 -> f64) (args : list arg) : outcome f64 err :=
   match args with [ANum x] => gate op (f_canon (f x)) | _ => Err EBadArgs end.
@@ -257,19 +260,19 @@ Definition eval_numop (op : numop) (args : list arg) : outcome f64 err :=
       do r <- safe_i64 b;
       let sh := Z.land r 63 in
       let v := wrap_i64 (l * 2 ^ sh) in
-      if negb (Z.shiftr v sh =? l) then Err ENotBitwiseSafe else Ok (f_of_Z v)
+      if negb (Z.shiftr v sh =? l) then Err ENotBitwiseSafe else Ok (f_of_i64 v)
   | OShr, [ANum a; ANum b] =>
       do l <- safe_i64 a;
       if f_sign b then Err EShiftByNegative else
       do r <- safe_i64 b;
-      Ok (f_of_Z (Z.shiftr l (Z.land r 63)))
+      Ok (f_of_i64 (Z.shiftr l (Z.land r 63)))
   | OBitAnd, [ANum a; ANum b] => bitwise2 Z.land a b
   | OBitOr, [ANum a; ANum b] => bitwise2 Z.lor a b
   | OBitXor, [ANum a; ANum b] => bitwise2 Z.lxor a b
   (* mod.rs State::UnaryOp *)
   | ONeg, [ANum a] => Ok (f_neg a)
   | OPos, [ANum a] => Ok a
-  | OBitNot, [ANum a] => do x <- safe_i64 a; Ok (f_of_Z (Z.lnot x))
+  | OBitNot, [ANum a] => do x <- safe_i64 a; Ok (f_of_i64 (Z.lnot x))
   (* stdlib.rs *)
   | BSum, [AArr l] => gate BSum (fold_left f_add l f_zero)
   | BAvg, [AArr l] =>
@@ -296,7 +299,7 @@ Definition eval_numop (op : numop) (args : list arg) : outcome f64 err :=
   | BMod, [ANum a; ANum b] => if f_eqb b f_zero then Err EDivByZero else gate BMod (f_rem a b)
   | BModulo, [ANum a; ANum b] => if f_eqb b f_zero then Err EDivByZero else gate BModulo (f_rem a b)
   | BMantissa, [ANum a] => gate BMantissa (f_mantissa a)
-  | BExponent, [ANum a] => gate BExponent (f_of_Z (f_exponent a))
+  | BExponent, [ANum a] => gate BExponent (f_of_i64 (f_exponent a))    (* i16 -> f64 *)
   | BDeg2Rad, [ANum a] => gate BDeg2Rad (f_mul a (f_div f_pi f_180))
   | BRad2Deg, [ANum a] => gate BRad2Deg (f_mul a (f_div f_180 f_pi))
   | BLength, [ACount n] => if (n <? 2 ^ 64)%N then gate BLength (f_of_N n) else Err EBadArgs
